@@ -477,6 +477,9 @@ func RunRoutes(r *core.Run, engines []typed.Engine, fams []*rs.Schema, every int
 			}
 			c := Case{j.eng.Name(), j.s.Name, j.t, v}
 			fs, runs := CheckRoutes(j.eng, j.s, c)
+			// builder reuse: the value, Reset, then its neighbour in V(T) with the same builder
+			rfs, rruns := CheckReuse(j.eng, j.s, j.s.T(j.t), v, vals[(vi+1)%len(vals)])
+			fs, runs = append(fs, rfs...), runs+rruns
 			lc.States++
 			lc.Transitions += int64(runs)
 			lc.Traces += int64(runs)
@@ -589,4 +592,86 @@ func perturb(v ref.Val) ref.Val {
 		return ref.Null()
 	}
 	return ref.Null()
+}
+
+// CheckReuse: one builder makes value a, is Reset, and makes value b. The first node must still read
+// as a afterwards (it is finished: C11's clause, on builders of the typed engines), and the second as b.
+// An engine whose Reset is not implemented (it says so by panicking with a TODO) is left out.
+func CheckReuse(eng typed.Engine, s *rs.Schema, t *rs.Type, a, b ref.Val) (fs []core.Finding, runs int) {
+	site := eng.Name() + "/" + strategy(t)
+	for _, lvl := range []string{"type", "repr"} {
+		if lvl == "type" && s.ComplexKeys(t) {
+			continue
+		}
+		feed := func(v ref.Val) ref.Val {
+			if lvl == "repr" {
+				r, _ := s.Repr(t, v)
+				return r
+			}
+			return s.FeedType(t, v)
+		}
+		if _, ok := s.Repr(t, a); !ok {
+			continue
+		}
+		if _, ok := s.Repr(t, b); !ok {
+			continue
+		}
+		var n1, n2 datamodel.Node
+		var e1, e2 error
+		var before ref.Val
+		unimplemented := false
+		pan := core.Guard(func() {
+			nb := eng.Proto(s, t.Name, lvl == "repr").NewBuilder()
+			if e1 = ref.Assign(nb, feed(a)); e1 != nil {
+				return
+			}
+			n1 = nb.Build()
+			before = bothViewsOf(n1)
+			if p := core.Guard(func() { nb.Reset() }); p != "" {
+				if strings.Contains(p, "TODO") {
+					unimplemented = true
+					return
+				}
+				panic(p)
+			}
+			if e2 = ref.Assign(nb, feed(b)); e2 != nil {
+				return
+			}
+			n2 = nb.Build()
+		})
+		runs++
+		where := fmt.Sprintf("%s %s.%s %s-level builder: value %s, Reset, value %s", eng.Name(), s.Name, t.Name, lvl, a, b)
+		switch {
+		case unimplemented:
+			continue
+		case pan != "":
+			fs = append(fs, core.F(site+"/reuse/panic("+lvl+"|"+core.Class(pan)+")", "%s: %s", where, pan))
+		case e1 != nil:
+			// rejecting its own value is the route check's finding
+		case e2 != nil:
+			var fresh error
+			core.Guard(func() { fresh = ref.Assign(eng.Proto(s, t.Name, lvl == "repr").NewBuilder(), feed(b)) })
+			if fresh != nil {
+				continue // a fresh builder refuses the value too: the route check's finding, not reuse
+			}
+			fs = append(fs, core.F(site+"/reuse/second-value-rejected("+lvl+"|"+rejectClass(e2.Error())+")", "%s: %v", where, e2))
+		default:
+			if after := bothViewsOf(n1); !ref.Equal(after, before) {
+				fs = append(fs, core.F(site+"/reuse/first-node-changed("+lvl+")", "%s: the first node read %s, after the builder was reused %s", where, before, after))
+			}
+			want, _ := s.Repr(t, b)
+			if got := ref.ReadTyped(n2.(schema.TypedNode).Representation()); !ref.Equal(got, want) && !hasUnsortedTypedMap(s, t, b) {
+				fs = append(fs, core.F(site+"/reuse/second-node-differs("+lvl+")", "%s: the second node's representation reads %s, want %s", where, got, want))
+			}
+		}
+	}
+	return
+}
+
+func bothViewsOf(n datamodel.Node) ref.Val {
+	v := ref.ReadTyped(n)
+	if tn, ok := n.(schema.TypedNode); ok {
+		return ref.List(v, ref.ReadTyped(tn.Representation()))
+	}
+	return ref.List(v)
 }
